@@ -1,0 +1,121 @@
+//go:build verif
+
+// Contracts for package printer, read by the verification engine in /verif
+// (comment-only; compiled only under the "verif" build tag).
+
+package printer
+
+//@ props C19 C18
+
+// Indentation is never negative (Config.Width < 0 is outside the
+// configuration space of the properties) and the printer has its writer.
+//@ wf printer: self.lv >= 0 && self.cfg.Width >= 0 && self.w != nil
+
+//@ default opaque
+
+// Every printing method keeps the indentation level and the depth of the
+// here-document stack.
+//@ func (*printer).*
+//@   ensures len(p.stack) == old(len(p.stack)) && p.lv == old(p.lv)
+
+// Methods that can reach a redirection need a here-document frame to
+// collect into.
+//@ func (*printer).command
+//@   requires len(p.stack) >= 1 && c != nil
+//@   ensures len(p.stack) == old(len(p.stack)) && p.lv == old(p.lv)
+//@ func (*printer).list
+//@   requires len(p.stack) >= 1
+//@   ensures len(p.stack) == old(len(p.stack)) && p.lv == old(p.lv)
+//@ func (*printer).andOrList
+//@   requires len(p.stack) >= 1
+//@   ensures len(p.stack) == old(len(p.stack)) && p.lv == old(p.lv)
+//@ func (*printer).pipeline
+//@   requires len(p.stack) >= 1
+//@   ensures len(p.stack) == old(len(p.stack)) && p.lv == old(p.lv)
+//@ func (*printer).cmd
+//@   requires len(p.stack) >= 1
+//@   ensures len(p.stack) == old(len(p.stack)) && p.lv == old(p.lv)
+//@ func (*printer).simpleCmd
+//@   requires len(p.stack) >= 1
+//@   ensures len(p.stack) == old(len(p.stack)) && p.lv == old(p.lv)
+//@ func (*printer).redir
+//@   requires len(p.stack) >= 1
+//@   ensures len(p.stack) == old(len(p.stack)) && p.lv == old(p.lv)
+//@ func (*printer).subshell
+//@   requires len(p.stack) >= 1
+//@   ensures len(p.stack) == old(len(p.stack)) && p.lv == old(p.lv)
+//@ func (*printer).group
+//@   requires len(p.stack) >= 1
+//@   ensures len(p.stack) == old(len(p.stack)) && p.lv == old(p.lv)
+//@ func (*printer).forClause
+//@   requires len(p.stack) >= 1
+//@   ensures len(p.stack) == old(len(p.stack)) && p.lv == old(p.lv)
+//@ func (*printer).caseClause
+//@   requires len(p.stack) >= 1
+//@   ensures len(p.stack) == old(len(p.stack)) && p.lv == old(p.lv)
+//@ func (*printer).ifClause
+//@   requires len(p.stack) >= 1
+//@   ensures len(p.stack) == old(len(p.stack)) && p.lv == old(p.lv)
+//@ func (*printer).whileClause
+//@   requires len(p.stack) >= 1
+//@   ensures len(p.stack) == old(len(p.stack)) && p.lv == old(p.lv)
+//@ func (*printer).untilClause
+//@   requires len(p.stack) >= 1
+//@   ensures len(p.stack) == old(len(p.stack)) && p.lv == old(p.lv)
+//@ func (*printer).loop
+//@   requires len(p.stack) >= 1 && len(cond) >= 1 && len(cmds) >= 1
+//@   ensures len(p.stack) == old(len(p.stack)) && p.lv == old(p.lv)
+//@ func (*printer).funcDef
+//@   requires len(p.stack) >= 1
+//@   ensures len(p.stack) == old(len(p.stack)) && p.lv == old(p.lv)
+
+//@ func (*printer).word
+//@   requires len(p.stack) >= 1
+//@   ensures len(p.stack) == old(len(p.stack)) && p.lv == old(p.lv)
+//@ func (*printer).wordPart
+//@   requires len(p.stack) >= 1 && w != nil
+//@   ensures len(p.stack) == old(len(p.stack)) && p.lv == old(p.lv)
+//@ func (*printer).quote
+//@   requires len(p.stack) >= 1
+//@   ensures len(p.stack) == old(len(p.stack)) && p.lv == old(p.lv)
+//@ func (*printer).paramExp
+//@   requires len(p.stack) >= 1
+//@   ensures len(p.stack) == old(len(p.stack)) && p.lv == old(p.lv)
+//@ func (*printer).cmdSubst
+//@   requires len(p.stack) >= 1
+//@   ensures len(p.stack) == old(len(p.stack)) && p.lv == old(p.lv)
+//@ func (*printer).arithExp
+//@   requires len(p.stack) >= 1
+//@   ensures len(p.stack) == old(len(p.stack)) && p.lv == old(p.lv)
+//@ func (*printer).arithExpr
+//@   requires len(p.stack) >= 1
+//@   ensures len(p.stack) == old(len(p.stack)) && p.lv == old(p.lv)
+//@ func (*printer).arithEval
+//@   requires len(p.stack) >= 1
+//@   ensures len(p.stack) == old(len(p.stack)) && p.lv == old(p.lv)
+
+//@ func (*printer).push
+//@   ensures len(p.stack) == old(len(p.stack)) + 1 && p.lv == old(p.lv)
+
+// After popping its frame heredoc prints the collected bodies; a command
+// substitution inside a body that stays on one line and yet carries a
+// here-document cannot come from the parser, but that is a property of the
+// grammar, not of a single node, and is not proved here.
+//@ func (*printer).heredoc
+//@   requires len(p.stack) >= 1
+//@   waive requires "printer.(*printer).word" needs a grammar-level invariant (no here-document inside a one-line command substitution of a here-document body)
+//@   ensures len(p.stack) == old(len(p.stack)) - 1 && p.lv == old(p.lv)
+
+//@ func (*printer).print
+//@   opaque
+
+//@ func (*printer).sepOf
+//@   opaque
+//@ func (*printer).trim
+//@   opaque
+
+// The closures returned by trim hold the list whose separator they restore.
+//@ func (*printer).trim$1
+//@   requires ao != nil
+//@ func (*printer).trim$2
+//@   requires c != nil
